@@ -223,7 +223,9 @@ class Emitter:
             return self.v["structs"][t[1]]["coq"]
         if k == "opt":
             return "(option %s)" % self.coq_ty(t[1])
-        if k == "list":
+        if k in ("list", "iter"):
+            # ("iter", T): a consuming iterator over a Vec (`v.into_iter()`), modelled as the list of the elements
+            # still to come; a type of its own so that `next` is only ever a vocabulary method of such a value
             return "(list %s)" % self.coq_ty(t[1])
         if k == "tuple":
             return "(" + " * ".join(self.coq_ty(x) for x in t[1]) + ")"
@@ -1354,6 +1356,12 @@ class Emitter:
                     ps = p.elems if (len(comps) > 1 and p.kind == "ptuple") else [p]
                     if len(ps) == len(tys) and any(self.pat_names_nonnative(x, t) for x, t in zip(ps, tys)):
                         native = False
+            if native and not all(is_int(t) for t in tys) and self.v.get("pure_match"):
+                # optional vocabulary key `pure_match`: a native match whose arms are all pure values is a
+                # Gallina match EXPRESSION (no bind, the function can stay total)
+                pm = self.pure_match(e, comps, terms, tys, env1)
+                if pm is not None:
+                    return k(pm[0], pm[1], env1)
             if native and not all(is_int(t) for t in tys):
                 def build(kk):
                     out = ["match %s with" % ", ".join(terms)]
@@ -1424,6 +1432,28 @@ class Emitter:
                     ts2.append(n)
             return "".join(pre) + with_scrut(ts2, tys, env1)
         return self.exprs(comps, env, k_sc)
+
+    def pure_match(self, e, comps, terms, tys, env1):
+        saved = dict(self.counter)
+        arms = []
+        rty = UNKNOWN
+        for p, _g, body in e.arms:
+            binds = []
+            if len(comps) > 1:
+                ps = ", ".join("_" for _ in comps) if p.kind == "pwild" else ", ".join(self.coq_pattern(x, t, binds) for x, t in zip(p.elems, tys))
+            else:
+                ps = self.coq_pattern(p, tys[0], binds)
+            env2 = env1
+            for rn, cn, t, mut in binds:
+                env2 = env2.bind(rn, cn, t, mut)
+            pr = self.try_pure(body, env2)
+            if pr is None:
+                self.counter = saved
+                return None
+            if rty == UNKNOWN or (rty[0] == "opt" and rty[1] == UNKNOWN):
+                rty = pr[1]
+            arms.append("| %s => %s" % (ps, pr[0]))
+        return "(match %s with %s end)" % (", ".join(terms), " ".join(arms)), rty
 
     def match_result(self, e, term, ty, env, kk):
         """match on an io::Result whose arms carry literals / guards: `match r with inl v => if-chain | inr v => if-chain end`"""
@@ -1541,6 +1571,10 @@ class Emitter:
         if shape is None:
             ext = self.v.get("fns", {}).get(key) or self.v.get("fns", {}).get(name)
             if ext is None:
+                # neither translated nor in the vocabulary: a helper DEFINED in the parsed source is inlined
+                loc = self.local_callee(f.segs)
+                if loc is not None:
+                    return self.inline_call(loc[0], loc[1], e.args, env, k)
                 raise EmitError("call of unknown function %s" % "::".join(f.segs))
             if callable(ext):
                 return ext(self, e, env, k)
@@ -1601,6 +1635,12 @@ class Emitter:
             b = getattr(self, "m_%s_%s" % (rty[0], name), None)
             if b is not None:
                 return b(e, rt, rty, env1, k)
+            # a method of a struct / enum of the parsed source that is neither translated nor in the
+            # vocabulary: inlined (the receiver has been evaluated: rt)
+            if rty[0] in ("struct", "enum"):
+                fn = self.local_method(rty[1], name)
+                if fn is not None and fn.self_kind:
+                    return self.inline_call(fn, rty[1], [e.recv] + list(e.args), env1, k, recv_val=(rt, rty))
             raise EmitError("method %s on %r" % (name, rty))
         return self.expr(e.recv, env, k_recv)
 
@@ -1669,6 +1709,31 @@ class Emitter:
         return self.bind(rt, rty[1], env, k, hint="u")
 
     m_opt_expect = m_opt_unwrap
+
+    # builtin methods: bool
+    def m_bool_then_some(self, e, rt, rty, env, k):
+        """c.then_some(x) = if c { Some(x) } else { None } (x is evaluated first: it is an argument);
+        `(!c).then_some(x)` is spelled like `if c { None } else { Some(x) }`"""
+        if len(e.args) != 1:
+            raise EmitError("then_some takes one argument")
+
+        def k1(t, ty, env1):
+            if rt.startswith("(negb ") and rt.endswith(")") and self.balanced(rt[6:-1]):
+                return k("(if %s then None else (Some %s))" % (rt[6:-1], t), ("opt", ty), env1)
+            return k("(if %s then (Some %s) else None)" % (rt, t), ("opt", ty), env1)
+        return self.expr(e.args[0], env, k1)
+
+    @staticmethod
+    def balanced(t):
+        d = 0
+        for ch in t:
+            if ch == "(":
+                d += 1
+            elif ch == ")":
+                d -= 1
+                if d < 0:
+                    return False
+        return d == 0
 
     # -- macros --------------------------------------------------------------
     def e_macro(self, e, env, k):
@@ -1783,6 +1848,10 @@ class Emitter:
         for a in x.args:
             if a.kind == "path" and len(a.segs) == 1 and env.get(a.segs[0]) is not None and env.get(a.segs[0]).mut == "ref":
                 pass
+        # a local helper method that may be inlined (inline_call) and takes `&mut self`
+        # (by name, whatever the impl: over-approximating the assigned variables is harmless)
+        if x.name in self.local_mut_methods():
+            return True
         return x.name in self.MUTATING
 
     def closure_st(self, cl, ptys, env, k):
@@ -2099,6 +2168,211 @@ class Emitter:
             x = self.fresh("q")
             return "match %s with\n| Some %s =>\n%s\n| None =>\n%s\nend" % (t, x, ind(k(x, ty[1], env1), 4), ind(self.ctl.ret(env1, "None", ty), 4))
         return self.expr(e.e, env, k1)
+
+    # -- inlining of local helpers -------------------------------------------
+    # A call that names neither a translated target nor a vocabulary entry but a function DEFINED in
+    # the parsed source (free fn, or a method of an `impl` of a struct / enum of that source; further
+    # sources through the optional vocabulary key `inline_sources: [source text, ..]`) is translated
+    # by inlining the callee's body at the call site.  A behaviour-preserving "extract function"
+    # refactoring then yields (nearly) the term the unrefactored code gave; a helper whose body
+    # changes meaning changes the caller's term, so detection is not weakened.
+    INLINE_DEPTH = 4
+
+    def inline_items(self):
+        its = getattr(self, "_inline_items", None)
+        if its is None:
+            its = list(self.items)
+            from .rparser import parse_file, ParseError
+            from .lexer import LexError
+            for src in self.v.get("inline_sources", ()):
+                try:
+                    its.extend(parse_file(src))
+                except (ParseError, LexError) as e:
+                    raise EmitError("inline_sources: parse error: %s" % e)
+            self._inline_items = its
+        return its
+
+    def _all_items(self, items=None):
+        for it in (self.inline_items() if items is None else items):
+            yield it
+            if it.kind == "mod":
+                for x in self._all_items(it.items):
+                    yield x
+
+    def inlinable(self, fn, what):
+        if fn.body is None:
+            return None
+        if any(q in ("unsafe", "extern", "async") for q in getattr(fn, "quals", ())):
+            return None       # stays an unknown function (unsafe code is pinned, never inlined)
+        return fn
+
+    def local_free_fn(self, name):
+        hits = [it for it in self._all_items() if it.kind == "fn" and it.name == name]
+        if not hits:
+            return None
+        if len(hits) > 1:
+            raise EmitError("call of %s: %d definitions in the source, cannot inline" % (name, len(hits)))
+        return self.inlinable(hits[0], name)
+
+    def local_method(self, tname, name):
+        from .rparser import type_name
+        hits = []
+        for it in self._all_items():
+            if it.kind == "impl" and type_name(it.target) == tname:
+                hits.extend(sub for sub in it.items if sub.kind == "fn" and sub.name == name)
+        if not hits:
+            return None
+        if len(hits) > 1:
+            raise EmitError("call of %s::%s: %d definitions in the source, cannot inline" % (tname, name, len(hits)))
+        return self.inlinable(hits[0], name)
+
+    def local_mut_methods(self):
+        names = getattr(self, "_local_mut_methods", None)
+        if names is None:
+            names = set()
+            try:
+                for it in self._all_items():
+                    if it.kind == "impl":
+                        names.update(sub.name for sub in it.items if sub.kind == "fn" and sub.self_kind == "refmut" and sub.body is not None)
+            except EmitError:
+                pass
+            self._local_mut_methods = names
+        return names
+
+    def local_callee(self, segs):
+        """(fn, impl type name | None) for a call path naming a function of the parsed source, else None"""
+        name = segs[-1]
+        quals = [s for s in segs[:-1] if s not in ("crate", "self", "super")]
+        if not quals:
+            fn = self.local_free_fn(name)
+            return (fn, None) if fn is not None else None
+        tname = quals[-1]
+        if tname == "Self":
+            tname = self.self_struct
+        if tname is not None and tname[:1].isupper():
+            fn = self.local_method(tname, name)
+            return (fn, tname) if fn is not None else None
+        # module-qualified free function (`palette::f`)
+        fn = self.local_free_fn(name)
+        return (fn, None) if fn is not None else None
+
+    def ty_known(self, t):
+        if t == UNKNOWN or t[0] == "never":
+            return False
+        return all(self.ty_known(x) for x in t[1:] if isinstance(x, tuple) and x and isinstance(x[0], str)) and \
+            all(self.ty_known(y) for x in t[1:] if isinstance(x, tuple) and x and isinstance(x[0], tuple) for y in x)
+
+    def is_atom(self, term):
+        import re
+        return re.match(r"^([A-Za-z_][A-Za-z0-9_']*|\d+)$", term) is not None
+
+    def inline_call(self, fn, struct, args, env, k, recv_val=None):
+        """args: argument expressions, the receiver first when fn takes self.  recv_val: (term, type)
+        of an already evaluated receiver."""
+        key = (struct + "::" if struct else "") + fn.name
+        stack = getattr(self, "inline_stack", [])
+        if key in stack:
+            raise EmitError("call of %s: recursive helper, cannot inline" % key)
+        if len(stack) >= self.INLINE_DEPTH:
+            raise EmitError("call of %s: helpers nested deeper than %d, cannot inline" % (key, self.INLINE_DEPTH))
+        # formal parameters: (rust name | None, declared type, mode 'in'|'inout', mut)
+        formals = []
+        if fn.self_kind:
+            if struct is None:
+                raise EmitError("call of %s: method without an impl type" % key)
+            sty = ("enum", struct) if struct not in self.v.get("structs", {}) and struct in self.v.get("enums", {}) else ("struct", struct)
+            if sty[0] == "struct" and struct not in self.v.get("structs", {}):
+                sty = UNKNOWN
+            formals.append(("self", sty, "inout" if fn.self_kind == "refmut" else "in", fn.self_kind == "valmut"))
+        saved_struct = self.self_struct
+        self.self_struct = struct
+        try:
+            for pat, ty in fn.params:
+                p = pat
+                while p.kind == "pref":
+                    p = p.inner
+                mode = "inout" if (ty.form == "ref" and ty.mut) else "in"
+                if p.kind == "pwild" and mode == "in":
+                    formals.append((None, self.ty_of_ast(ty), "in", False))
+                elif p.kind == "pident":
+                    formals.append((p.name, self.param_type(p, ty), mode, p.mut))
+                else:
+                    raise EmitError("call of %s: parameter pattern %s, cannot inline" % (key, p.kind))
+            ret_decl = self.ty_of_ast(fn.ret)
+        finally:
+            self.self_struct = saved_struct
+        if len(args) != len(formals):
+            raise EmitError("call of %s with %d arguments, expected %d" % (key, len(args), len(formals)))
+
+        def go(i, acc, env1):
+            if i == len(args):
+                return body(acc, env1)
+            pty = formals[i][1]
+
+            def k1(t, ty, env2):
+                return go(i + 1, acc + [(t, ty)], env2)
+            if i == 0 and recv_val is not None:
+                return k1(recv_val[0], recv_val[1], env1)
+            a = args[i]
+            if a.kind == "int" and not a.suffix:
+                return self.expr(a, env1, k1, expect=pty)
+            return self.expr(a, env1, k1)
+
+        def body(vals, envc):
+            # the callee sees its parameters only; its locals get fresh Gallina names (Emitter.fresh is
+            # unique per translated function), so nothing of the caller can be captured
+            cenv = Env(self)
+            pre = []
+            for (name, pty, mode, mut), (t, ty) in zip(formals, vals):
+                if name is None:
+                    continue
+                vty = pty if pty != UNKNOWN else ty
+                if mode == "in" and (mut or not (self.is_atom(t) or (len(t) <= 48 and "\n" not in t))):
+                    n = self.fresh(name)
+                    pre.append("let %s := %s in\n" % (n, t))
+                    t = n
+                elif mode == "inout" and not self.is_atom(t):
+                    n = self.fresh(name if name != "self" else "slf")
+                    pre.append("let %s := %s in\n" % (n, t))
+                    t = n
+                cenv = cenv.bind(name, t, vty, "ref" if mode == "inout" else mut)
+            if pre and self.pure_mode:
+                raise NeedsBind()
+            init = dict((name, cenv.get(name).coq) for name, _t, mode, _m in formals if name and mode == "inout")
+
+            def after(t, ty, cenv2):
+                # write the `&mut` parameters back to the caller's places, then go on in the caller
+                outs = [(a, cenv2.get(name).coq) for (name, _t, mode, _m), a in zip(formals, args)
+                        if name and mode == "inout" and cenv2.get(name).coq != init[name]]
+                rty = ret_decl if self.ty_known(ret_decl) else ty
+                if fn.ret is None:
+                    t, rty = "tt", UNIT
+
+                def wr(j, envw):
+                    if j == len(outs):
+                        return k(t, rty, envw)
+                    place, val = outs[j]
+                    root = place
+                    while root.kind == "paren" or (root.kind == "unary" and root.op in ("&mut", "*", "&")):
+                        root = root.e
+                    if root.kind == "path" and len(root.segs) == 1 and envw.get(root.segs[0]) is not None and self.is_atom(val):
+                        # a plain variable: it simply continues under the callee's last name for it
+                        return wr(j + 1, envw.rebind(root.segs[0], val))
+                    return self.write_place(place, val, envw, lambda envn: wr(j + 1, envn))
+                return wr(0, envc)
+
+            def build(kk):
+                oldctl, oldstruct = self.ctl, self.self_struct
+                self.ctl = Ctl(lambda envx, t, ty: kk(t, ty, envx))     # `return` joins the caller's continuation
+                self.self_struct = struct
+                self.inline_stack = stack + [key]
+                try:
+                    return self.expr(fn.body, cenv, kk)
+                finally:
+                    self.ctl, self.self_struct = oldctl, oldstruct
+                    self.inline_stack = stack
+            return "".join(pre) + self.join_branches(cenv, after, build)
+        return go(0, [], env)
 
     # -- functions -----------------------------------------------------------
     def fn_shape(self, fn, struct=None, coq_name=None):
